@@ -1,10 +1,17 @@
 package main
 
-import "golang.org/x/tools/go/ssa"
+import (
+	"fmt"
+	"strings"
+
+	"golang.org/x/tools/go/ssa"
+)
+
+// C10 — no peer-supplied bytes can crash, hang or exhaust a protocol endpoint.
 
 func init() {
 	checks["C10"] = checkC10
-	explanations["C10"] = "wip"
+	explanations["C10"] = "Structural necessary conditions over everything reachable (class-hierarchy call graph incl. promoted methods and codec dispatch) from the wire entry points of the root, sqlite and fsim modules — http.Handler.ServeHTTP, the four Respond/HandleError, DI, TO1, TO2, TO0Client.RegisterBlob, http.Transport.Send, Parse*RvInfo — with a peer-taint analysis (E3): G1 every explicit panic is an SSA artifact, untainted, exhaustive-switch fallthrough or in a reviewed table, and every call of a panicking registry/enumeration accessor with a peer-controlled receiver is dominated by a validator; G2 every allocation with a peer-controlled size is len-derived, narrow-typed, constant-field or dominated by an upper bound (<= 2^24); G3 every index/slice the Go compiler's prove pass could NOT eliminate is untainted, guarded by comparisons on the very values, or reviewed (constant indices always need a length guard); G4 stdlib calls that panic on malformed arguments (IV/nonce length, whole blocks, short buffers) are guarded; G5 no unchecked type assertion on decoded values; plus (E1) each Respond returns either its response under err==nil or the error message type, and both content-length guards dominate body processing on server and client. Not decided: nil dereferences, panics inside reflect/stdlib other than the listed preconditions, hangs and CPU exhaustion (e.g. blocking pipes), memory below the stated bounds."
 }
 
 func checkC10(c *Ctx, p *Prog, r *Result) {
@@ -16,5 +23,109 @@ func checkC10(c *Ctx, p *Prog, r *Result) {
 	f := NewFlow(p, e3Rules(p), e.roots, nil)
 	e.g2(r, "C10", f)
 	e.g3(r, "C10", f, c.Repo)
-	_ = ssa.Function{}
+	e.g4(r, "C10", f)
+	e.g5(r, "C10")
+	r.floor("C10.panics", 45)
+	r.floor("C10.partial-lookups", 15)
+	r.floor("C10.alloc-bounded", 35)
+	r.floor("C10.bounds", 45)
+	r.floor("C10.stdlib-preconditions", 8)
+	r.floor("C10.type-assertions", 2)
+	c10ErrorConversion(p, r)
+	c10ContentLength(p, r)
+}
+
+// c10ErrorConversion: each Respond returns its response only under err==nil,
+// otherwise the error message type.
+func c10ErrorConversion(p *Prog, r *Result) {
+	rule := "C10.error-conversion"
+	r.rule(rule, "each server Respond method returns (respType, resp) only on the err==nil edge of its handler result; every other return carries the constant error message type")
+	r.floor(rule, 8)
+	errT, _ := p.constOf("fdo/protocol", "ErrorMsgType")
+	rs := &RuleSet{Atoms: []AtomDef{
+		{Name: "handler-ok", Doc: "the arm's handler returned a nil error", Edge: func(m *Matcher, pd Pred, holds bool) bool {
+			return pd.Kind == "nil" && holds && isErrorType(pd.X.Type())
+		}},
+	}}
+	for _, n := range []string{"fdo.DIServer.Respond", "fdo.TO0Server.Respond", "fdo.TO1Server.Respond", "fdo.TO2Server.Respond"} {
+		fn := p.ByName[n]
+		if fn == nil {
+			r.fail("anchor %s not found", n)
+			continue
+		}
+		f := NewFlow(p, rs, []*ssa.Function{fn}, func(g *ssa.Function) bool { return g != fn })
+		for i, b := range fn.Blocks {
+			ret, ok := b.Instrs[len(b.Instrs)-1].(*ssa.Return)
+			if !ok || b == fn.Recover {
+				continue
+			}
+			st := f.StateAt(ret)
+			isErr := isConstInt(returnValue(ret, 0), errT)
+			r.table(p, rule, fmt.Sprintf("return #%d of %s", i, n), p.instrPos(ret), isErr || st.Has("handler-ok"),
+				fmt.Sprintf("error type constant=%v under err==nil=%v", isErr, st.Has("handler-ok")))
+		}
+	}
+}
+
+// c10ContentLength: body processing happens only after the content-length guards.
+func c10ContentLength(p *Prog, r *Result) {
+	rule := "C10.content-length"
+	r.rule(rule, "on the server (before decrypting or dispatching the request body) and on the client (before decrypting or returning the response body): the size limit is disabled by configuration or 0 <= ContentLength <= limit was established")
+	r.floor(rule, 4)
+	isLimit := func(m *Matcher, v ssa.Value) bool {
+		pv := m.Prov(v)
+		return pv.Has("field:fdo/http.Handler.MaxContentLength") || pv.Has("field:fdo/http.Transport.MaxContentLength")
+	}
+	isLen := func(m *Matcher, v ssa.Value) bool {
+		pv := m.Prov(v)
+		return pv.Has("field:net/http.Request.ContentLength") || pv.Has("field:net/http.Response.ContentLength")
+	}
+	rs := &RuleSet{
+		Atoms: []AtomDef{
+			{Name: "limit-on", Edge: func(m *Matcher, pd Pred, holds bool) bool {
+				return pd.Kind == "lt" && holds && isConstInt(pd.X, 0) && isLimit(m, pd.Y)
+			}},
+			{Name: "limit-off", Edge: func(m *Matcher, pd Pred, holds bool) bool {
+				return pd.Kind == "lt" && !holds && isConstInt(pd.X, 0) && isLimit(m, pd.Y)
+			}},
+			{Name: "len-le-max", Edge: func(m *Matcher, pd Pred, holds bool) bool {
+				return pd.Kind == "lt" && !holds && isLimit(m, pd.X) && isLen(m, pd.Y)
+			}},
+			{Name: "len-nonneg", Edge: func(m *Matcher, pd Pred, holds bool) bool {
+				return pd.Kind == "lt" && !holds && isLen(m, pd.X) && isConstInt(pd.Y, 0)
+			}},
+		},
+		Complement: [][2]Atom{{"limit-on", "limit-off"}},
+		Derive: []Derivation{
+			{"len-guarded", []Atom{"limit-off"}},
+			{"len-guarded", []Atom{"len-le-max", "len-nonneg"}},
+		},
+	}
+	if h := p.ByName["fdo/http.Handler.ServeHTTP"]; h != nil {
+		f := NewFlow(p, rs, []*ssa.Function{h}, nil)
+		sites := f.CallSites(func(cal Callee, call ssa.CallInstruction) bool {
+			return (cal.Name == "fdo/protocol.Responder.Respond" || cal.Name == "fdo/kex.Session.Decrypt") && strings.HasPrefix(p.FuncName(call.Parent()), "fdo/http.Handler")
+		})
+		r.requireAtSites(f, rule, sites, []Atom{"len-guarded"})
+	} else {
+		r.fail("anchor fdo/http.Handler.ServeHTTP not found")
+	}
+	if t := p.ByName["fdo/http.Transport.Send"]; t != nil {
+		f := NewFlow(p, rs, []*ssa.Function{t}, nil)
+		sites := f.CallSites(func(cal Callee, call ssa.CallInstruction) bool {
+			return cal.Name == "fdo/kex.Session.Decrypt" && strings.HasPrefix(p.FuncName(call.Parent()), "fdo/http.Transport")
+		})
+		r.requireAtSites(f, rule, sites, []Atom{"len-guarded"})
+		for _, fn := range f.Order {
+			if fn == t || !strings.HasPrefix(p.FuncName(fn), "fdo/http.Transport.") {
+				continue
+			}
+			res := fn.Signature.Results()
+			if res.Len() == 3 && isErrorType(res.At(2).Type()) {
+				r.requireAtReturns(f, rule, fn, 2, []Atom{"len-guarded"})
+			}
+		}
+	} else {
+		r.fail("anchor fdo/http.Transport.Send not found")
+	}
 }
